@@ -538,7 +538,8 @@ UpdQuery(name, d, pick) ==
     /\ UNCHANGED <<settings, known, queue, nextID, allS, files, indexes, unmerge, views, cache>>
 
 \* UpdateTag(mark add / mark del) (manager.go:1263-1332); ids must exist
-MarkOK(name, S) == /\ name \in DOMAIN tags /\ IsMarkName(name) /\ S # {} /\ Max(S) < nextID
+\* (stream ids are unsigned in the code; a negative id in a schedule stands for the largest one, 2^64-1: no such stream)
+MarkOK(name, S) == /\ name \in DOMAIN tags /\ IsMarkName(name) /\ S # {} /\ \A i \in S : i >= 0 /\ i < nextID
 \* ids is the sequence given by the caller; the definition text is extended in that order (manager.go:1272-1299)
 RECURSIVE NewInOrder(_, _)
 NewInOrder(ids, have) ==
